@@ -267,6 +267,16 @@ func Build(v sb.V) interface{} {
 		return Level(int(v.N))
 	case "embednil":
 		return Page{Title: v.S}
+	case "embednil:stringer":
+		return NilEmbStringer{X: 1}
+	case "embednil:number":
+		return NilEmbNumber{X: 1}
+	case "embednil:boolean":
+		return NilEmbBoolean{X: 1}
+	case "embednil:iface":
+		return NilEmbIface{X: 1}
+	case "embednil:safe":
+		return NilEmbSafe{X: 1}
 	case "dag":
 		// 40 levels of lists that share their sub-lists: small in memory, 2^40
 		// paths for a comparison that does not remember what it has compared
@@ -637,7 +647,14 @@ func OwnNum(v interface{}) (float64, bool) {
 	return 0, false
 }
 
+// isNilPtr reports whether the methods of v cannot be called: a nil pointer,
+// or one of the menagerie's structs that embed a nil pointer or interface.
 func isNilPtr(v interface{}) bool {
+	switch v.(type) {
+	case NilEmbStringer, NilEmbNumber, NilEmbBoolean, NilEmbIface, NilEmbSafe,
+		*NilEmbStringer, *NilEmbNumber, *NilEmbBoolean, *NilEmbIface, *NilEmbSafe:
+		return true
+	}
 	rv := reflect.ValueOf(v)
 	return rv.Kind() == reflect.Ptr && rv.IsNil()
 }
@@ -671,4 +688,32 @@ type PromotedNumber struct {
 type PromotedBoolean struct {
 	X int
 	baseBoolean
+}
+
+// Struct values (not nil themselves) whose Stringer / Number / Boolean /
+// SafeValue methods are promoted from an embedded pointer or interface that
+// is nil: the call fails in the compiler's wrapper, before any method runs.
+type NilEmbStringer struct {
+	*OnlyStringer
+	X int
+}
+
+type NilEmbNumber struct {
+	X int
+	*OnlyNumber
+}
+
+type NilEmbBoolean struct {
+	*OnlyBoolean
+	X int
+}
+
+type NilEmbIface struct {
+	fmt.Stringer
+	X int
+}
+
+type NilEmbSafe struct {
+	stick.SafeValue
+	X int
 }
